@@ -68,7 +68,20 @@ pub fn run(cases_path: &str, out_path: &str) -> i32 {
         if kind == "created" {
             let port = http::free_port();
             let cfg = http::server_config(&dir, port, case["cnet"].as_str().unwrap_or("regtest"), case["ctraces"].as_bool().unwrap_or(false), None);
-            match rt.block_on(brc20_prog::start(cfg)) {
+            let mut created = rt.block_on(brc20_prog::start(cfg.clone()));
+            let mut port = port;
+            for _ in 0..20 {
+                match &created {
+                    Err(e) if e.to_string().contains("in use") => {
+                        port = http::free_port();
+                        let mut c2 = cfg.clone();
+                        c2.brc20_prog_rpc_server_url = format!("127.0.0.1:{}", port);
+                        created = rt.block_on(brc20_prog::start(c2));
+                    }
+                    _ => break,
+                }
+            }
+            match created {
                 Ok(h) => {
                     if case["fill"] == json!("populated") {
                         let g = format!("0x{}", "ab".repeat(32));
@@ -106,8 +119,8 @@ pub fn run(cases_path: &str, out_path: &str) -> i32 {
                 return 2;
             }
         }
-        let port = http::free_port();
-        let cfg = http::server_config(&dir, port, case["onet"].as_str().unwrap_or("regtest"), case["otraces"].as_bool().unwrap_or(false), None);
+        let mut port = http::free_port();
+        let mut cfg = http::server_config(&dir, port, case["onet"].as_str().unwrap_or("regtest"), case["otraces"].as_bool().unwrap_or(false), None);
         let mut outcome = "fails".to_string();
         let mut detail = String::new();
         let mut same = true;
@@ -117,6 +130,11 @@ pub fn run(cases_path: &str, out_path: &str) -> i32 {
             match &res {
                 Err(e) if e.to_string().contains("lock") || e.to_string().contains("LOCK") => {
                     std::thread::sleep(std::time::Duration::from_millis(25));
+                    res = rt.block_on(brc20_prog::start(cfg.clone()));
+                }
+                Err(e) if e.to_string().contains("in use") => {
+                    port = http::free_port();
+                    cfg.brc20_prog_rpc_server_url = format!("127.0.0.1:{}", port);
                     res = rt.block_on(brc20_prog::start(cfg.clone()));
                 }
                 _ => break,
